@@ -587,3 +587,13 @@ CHECKS["C04"]["note"] += (
     " Known finding: a manual edit made on a level younger than the one a "
     "temporary feature was just assigned through is lost at the next "
     "refresh.")
+CHECKS["C18"]["text"] += (
+    " Brightness features are also computed with a background of fractional "
+    "grey values.")
+CHECKS["C13"]["text"] += (
+    " The write paths cross the (forced) chunk length: 13 events, of which "
+    "the filtered export and the first split part hold 11.")
+CHECKS["C11"]["text"] += (
+    " In the storage pipelines a given fluorescence channel count must "
+    "survive on a file with one fluorescence feature (the writer completes "
+    "it only when missing).")
